@@ -1104,6 +1104,15 @@ def remove_duplicate_functions(source: str, preserve: Collection[str]) -> str:
     for node in core.walk(root, ast.Name):
         names[node.id].append(node)
 
+    # A function that is referenced on a line with an ignore comment cannot be renamed
+    for name in list(renamings):
+        if any(
+            core.has_ignore_comment(source, core.get_charnos(node, source))
+            for node in names[name]
+        ):
+            delete = {node for node in delete if node.name != name}
+            del renamings[name]
+
     node_renamings = collections.defaultdict(set)
     for name, substitute in renamings.items():
         for node in names[name]:
